@@ -81,7 +81,37 @@ def op_lexer(task):
                         r = lex(text)
                         if r["exc"]:
                             seen.setdefault(r["exc"] + ":prefix", text)
-    return {"cases": cases, "exceptions": seen, "prefix_family": fam}
+    # long tokens of every kind, each in its own process with a hard time limit: a regular
+    # expression that backtracks exponentially cannot be interrupted from inside the interpreter
+    longs = []
+    for n in (40, 400):
+        longs += ["1" * n + ";", "0" * n + ";", "0x" + "f" * n + ";", "0b" + "01" * (n // 2) + ";", "1." + "0" * n + ";",
+                  "." + "9" * n + "f;", "1e+" + "0" * n + ";", "0x1p" + "7" * n + ";", "1" * n + "u" * 3 + ";",
+                  "a" * n + ";", "_" * n + ";", "\"" + "a" * n + "\";", "/*" + "x" * n + "*/", "//" + "y" * n + "\n",
+                  " " * n + "a", "\t" * n + "a", "+" * n, "(" * n, "1" * n + "." * 3 + "e" * 3 + ";"]
+    import multiprocessing as mp
+
+    def child(text, q):
+        q.put(lex(text)["exc"])
+    ctx = mp.get_context("fork")
+    for text in longs:
+        cases += 1
+        q = ctx.Queue()
+        pr = ctx.Process(target=child, args=(text, q))
+        pr.start()
+        pr.join(task.get("long_timeout", 8))
+        if pr.is_alive():
+            pr.kill()
+            pr.join()
+            seen.setdefault("TIMEOUT:long-token", text)
+        else:
+            try:
+                e = q.get(timeout=2)
+            except Exception:
+                e = "no-answer"
+            if e:
+                seen.setdefault(str(e) + ":long-token", text)
+    return {"cases": cases, "exceptions": seen, "prefix_family": fam, "long_tokens": len(longs)}
 
 
 def op_prefixes(task):
